@@ -27,6 +27,8 @@ import (
 // one batch in serveBytesEvery is sent
 var serveBytesProps = map[string]bool{"C08": true}
 var serveBytesEvery = 4
+var serveBytesMax = 800 // at most this many recorded requests per run
+var serveBytesPerFile = 16
 
 func serveBytesEnabled() bool {
 	if len(os.Args) < 3 || os.Args[1] != "gen" {
@@ -79,7 +81,7 @@ func serveBytesHook(b *Batch, names []string) {
 		return
 	}
 	sbSeen++
-	if serveBytesEvery > 1 && sbSeen%serveBytesEvery != 1 {
+	if (serveBytesEvery > 1 && sbSeen%serveBytesEvery != 1) || len(sbCases) >= serveBytesMax {
 		return
 	}
 	sbBusy = true
@@ -229,6 +231,9 @@ func flushServeBytes(dir, prefix string) error {
 	sbCases, sbDids, sbSeen = nil, nil, 0
 	tag := strings.TrimPrefix(prefix, "cases_")
 	shards := 16
+	if need := (len(cases) + serveBytesPerFile - 1) / serveBytesPerFile; need > shards {
+		shards = need
+	}
 	if shards > len(cases) {
 		shards = len(cases)
 	}
